@@ -30,8 +30,10 @@ BUILD = ROOT / "build"
 # that it never evicts the executables of a concurrent run against /repo
 HBUILD = BUILD if REPO == Path("/repo") else BUILD / ("alt-" + hashlib.md5(str(REPO).encode()).hexdigest()[:8])
 COQ = ROOT / "coq"
-EVID = Path(os.environ.get("VERIF_EVIDENCE_DIR", str(ROOT / "evidence")))   # overridden when checking a seeded mutation
-REPLAY = Path(os.environ.get("VERIF_REPLAY_DIR", str(ROOT / "replay")))
+# evidence and replay files of a run against another checkout never land in the committed directories
+_alt = None if REPO == Path("/repo") else HBUILD
+EVID = Path(os.environ.get("VERIF_EVIDENCE_DIR", str(ROOT / "evidence" if _alt is None else _alt / "evidence")))
+REPLAY = Path(os.environ.get("VERIF_REPLAY_DIR", str(ROOT / "replay" if _alt is None else _alt / "replay")))
 
 ALLOWED_AXIOMS = {
     # axioms declared by the Coq standard library itself (named in DESIGN.md section 7)
